@@ -547,7 +547,7 @@ def main():
         fn_records.append(rec)
         if okc:
             discharged.append(oid)
-        elif co.get("on_hit") == "undecided":
+        elif co.get("on_hit") == "undecided" or co.get("on_miss") == "undecided":
             rec["status"] = "undecided"
             undecided.append(f"{oid}: {co['why'][:300]}")
         else:
